@@ -1,3 +1,173 @@
 import Sheens.MCrew
+import Sheens.Proofs.MCrewLemmas
 
-/-! Property C16 — theorems (in progress). -/
+/-!
+# Property C16 — mcrew: memory advances only with a successful write
+
+Over the model `MCrew.step` / `MCrew.run` of the (repaired) service, for all operation sequences —
+the store's failures are operations of the sequence (`storeDown` / `storeUp`), so "every position
+at which the store starts or stops failing" is part of the quantifier — all specs (`specs` is any
+function) and all limits.  Each operation is one atomic region (the crew lock is held from the
+check to the in-memory update), which is why the sequential model is the model of concurrent
+clients too; that the lock really spans those regions is re-checked from the source on every run
+(`FactsOK.mcrew_*`), and `sync.RWMutex` / bbolt are trusted.
+-/
+
+namespace Sheens.C16
+
+open MCrew
+
+/-- One operation preserves the agreement. -/
+theorem step_preserves (specs : String → Option Spec) (limit : Option Int) (s : Svc) (op : MCrew.Op)
+    (h : s.mem = s.store) : (step specs limit s op).1.mem = (step specs limit s op).1.store := by
+  cases op with
+  | storeDown => exact h
+  | storeUp => exact h
+  | add spec id node bs =>
+    have := step_add specs limit s spec id node bs
+    simp only at this
+    rw [this]
+    split
+    · exact h
+    · split
+      · simp only [h]
+      · exact h
+  | rem id =>
+    rw [step_rem]
+    split
+    · simp only [h]
+    · exact h
+  | process msg =>
+    simp only [MCrew.step]
+    split
+    · exact h
+    · next changed _ =>
+      split
+      · exact h
+      · next st hw =>
+        simp only
+        rw [writeAll_some hw, applyW_map_some, h]
+
+/-- generalisation of `mem_eq_store` over the start state -/
+theorem run_preserves (specs : String → Option Spec) (limit : Option Int) (ops : List MCrew.Op) :
+    ∀ s : Svc, s.mem = s.store → (run specs limit s ops).mem = (run specs limit s ops).store := by
+  induction ops with
+  | nil => intro s h; exact h
+  | cons op rest ih =>
+    intro s h
+    simp only [run, List.foldl_cons]
+    exact ih _ (step_preserves specs limit s op h)
+
+/-- After any sequence of operations, with storage failures at arbitrary points, the in-memory crew
+    equals the stored records. -/
+theorem mem_eq_store (specs : String → Option Spec) (limit : Option Int) (ops : List MCrew.Op) :
+    (run specs limit init ops).mem = (run specs limit init ops).store :=
+  run_preserves specs limit ops init rfl
+
+/-- An operation that does not succeed (failed write, existing id, unknown spec) leaves the service
+    exactly as it was. -/
+theorem failed_op_is_noop (specs : String → Option Spec) (limit : Option Int) (s : Svc) (op : MCrew.Op)
+    (h : (step specs limit s op).2 ≠ MCrew.Res.ok) : (step specs limit s op).1 = s := by
+  cases op with
+  | storeDown => simp [MCrew.step] at h
+  | storeUp => simp [MCrew.step] at h
+  | add spec id node bs =>
+    have := step_add specs limit s spec id node bs
+    simp only at this
+    rw [this] at h ⊢
+    split
+    · rfl
+    · split
+      · next h1 h2 => simp [h1, h2] at h
+      · rfl
+  | rem id =>
+    rw [step_rem] at h ⊢
+    split
+    · next h1 => simp [h1] at h
+    · rfl
+  | process msg =>
+    simp only [MCrew.step] at h ⊢
+    split
+    · rfl
+    · split
+      · rfl
+      · next hw1 _ _ hw2 => simp [hw1, hw2] at h
+
+/-- one step with the store down: nothing moves and the store stays down -/
+theorem step_frozen (specs : String → Option Spec) (limit : Option Int) (s : Svc) (op : MCrew.Op)
+    (hd : s.storeUp = false) (hno : op ≠ MCrew.Op.storeUp) :
+    (step specs limit s op).1.mem = s.mem ∧ (step specs limit s op).1.store = s.store ∧
+    (step specs limit s op).1.storeUp = false := by
+  cases op with
+  | storeDown => exact ⟨rfl, rfl, rfl⟩
+  | storeUp => exact absurd rfl hno
+  | add spec id node bs =>
+    have := step_add specs limit s spec id node bs
+    simp only at this
+    rw [this]
+    split
+    · exact ⟨rfl, rfl, hd⟩
+    · simp only [hd]; exact ⟨rfl, rfl, hd⟩
+  | rem id =>
+    rw [step_rem]
+    simp only [hd]; exact ⟨rfl, rfl, hd⟩
+  | process msg =>
+    simp only [MCrew.step]
+    split
+    · exact ⟨rfl, rfl, hd⟩
+    · next changed _ =>
+      split
+      · exact ⟨rfl, rfl, hd⟩
+      · next st hw =>
+        obtain ⟨he, hst⟩ := writeAll_down hd hw
+        have hc : changed = [] := by
+          cases changed with
+          | nil => rfl
+          | cons _ _ => simp at he
+        subst hc
+        exact ⟨rfl, hst, hd⟩
+
+/-- While the store is failing, memory does not move (whatever the operations, until `storeUp`). -/
+theorem memory_frozen_while_store_down (specs : String → Option Spec) (limit : Option Int) (s : Svc)
+    (ops : List MCrew.Op) (hd : s.storeUp = false) (hno : ∀ op ∈ ops, op ≠ MCrew.Op.storeUp) :
+    (run specs limit s ops).mem = s.mem ∧ (run specs limit s ops).store = s.store := by
+  induction ops generalizing s with
+  | nil => exact ⟨rfl, rfl⟩
+  | cons op rest ih =>
+    simp only [run, List.foldl_cons]
+    obtain ⟨h1, h2, h3⟩ := step_frozen specs limit s op hd (hno op (by simp))
+    have := ih (step specs limit s op).1 h3 (fun o ho => hno o (by simp [ho]))
+    simp only [run] at this
+    rw [this.1, this.2, h1, h2]
+    exact ⟨rfl, rfl⟩
+
+/-- A successful `add` makes the machine known to memory and store alike; a successful `rem` removes
+    it from both. -/
+theorem add_ok (specs : String → Option Spec) (limit : Option Int) (s : Svc) (spec id node : String)
+    (bs : Option Bs) (h : (step specs limit s (.add spec id node bs)).2 = MCrew.Res.ok) :
+    let s' := (step specs limit s (.add spec id node bs)).1
+    (Sio.find id s'.mem).isSome ∧ (Sio.find id s'.store).isSome := by
+  have := step_add specs limit s spec id node bs
+  simp only at this
+  simp only
+  rw [this] at h ⊢
+  split at h
+  · simp at h
+  · split at h
+    · next h1 h2 =>
+      simp only [if_neg h1, if_pos h2, Sio.find_put_self]
+      exact ⟨rfl, rfl⟩
+    · simp at h
+
+theorem rem_ok (specs : String → Option Spec) (limit : Option Int) (s : Svc) (id : String)
+    (h : (step specs limit s (.rem id)).2 = MCrew.Res.ok) :
+    let s' := (step specs limit s (.rem id)).1
+    Sio.find id s'.mem = none ∧ Sio.find id s'.store = none := by
+  simp only
+  rw [step_rem] at h ⊢
+  split at h
+  · next h1 =>
+    simp only [if_pos h1, Sio.find_del_self, and_self]
+  · simp at h
+
+end Sheens.C16
